@@ -423,7 +423,8 @@ class XBuffer(ABC):
         if sizepa > self.capacity:
             self.grow(sizepa)
         elif self.grow_step is not None:
-            self.grow(self.grow_step)
+            # smallest multiple of grow_step that is sure to fit the request
+            self.grow(self.grow_step * -(-sizepa // self.grow_step))
         else:
             self.grow(self.capacity)
 
